@@ -139,8 +139,8 @@ PLANS = {
                 thorough=dict(behs=150, depth=28, mode="crash", budget=6, nested=4, stride=1, fs=[1, 3, 25], mc_crashes=3, mutants=True, decode=True)),
     "C04": dict(quick=dict(behs=8, depth=20, mode="both", budget=6, nested=2, stride=1, fs=[1, 3], mc_crashes=2, mutants=True, max_ops=4, decode=True),
                 thorough=dict(behs=120, depth=28, mode="both", budget=24, nested=4, stride=1, fs=[1, 3, 25], mc_crashes=3, mutants=True, decode=True)),
-    "C17": dict(quick=dict(behs=60, depth=24, mode="none", budget=0, nested=0, stride=1, fs=[1, 3, 25, 60], mc_crashes=1, mutants=True),
-                thorough=dict(behs=600, depth=30, mode="none", budget=0, nested=0, stride=1, fs=[1, 3, 25, 60, 400], mc_crashes=2, mutants=True)),
+    "C17": dict(quick=dict(behs=60, depth=24, mode="none", budget=0, nested=0, stride=1, fs=[1, 3, 25, 60], mc_crashes=1, mutants=True, flsweep=10),
+                thorough=dict(behs=600, depth=30, mode="none", budget=0, nested=0, stride=1, fs=[1, 3, 25, 60, 400], mc_crashes=2, mutants=True, flsweep=40)),
     # C16's crash leg: recovered images of histories whose merkle pages cross the elision threshold while parts of
     # them stay untouched (groups of 10-15 keys under one deep page), every image decoded by the independent decoder
     "C16": dict(quick=dict(behs=4, depth=18, mode="crash", budget=1, nested=0, stride=2, fs=[10, 12, 15], mc_crashes=1, mutants=False,
@@ -225,6 +225,60 @@ def gen_scripts(pid, plan, seed, rng, with_overlay=True):
     return scripts, classes, consts_by_class
 
 
+def freelist_sweep_scripts(pid, rng, first_run, n):
+    """Scripts that bring the ln free list to "several full pages under a nearly empty head" and then free thousands of
+    pages in one commit (free-list pages are popped, exhausted and rewritten inside FreeList::commit): a probe run
+    measures the head's length after the first big release, the sweep writes a value of just the size that leaves
+    0..n-1 (+-) entries in the head before the second big release.  All are legal NomtApi behaviours."""
+    consts = api.gen_constants(maxlog=2)
+    keys = sorted(consts["Keys"])
+    NCH = {k: "NoCh" for k in keys}
+    BIG = 9000000           # ~2200 overflow pages per value
+
+    def beh_for(with_tail):
+        beh = []
+        def commit(w):
+            beh.extend([dict(a="Begin", s=1, chain=[], res="Ok"), dict(a="Finish", s=1, f=1, w=dict(NCH, **w)), dict(a="Commit", f=1, res="Ok")])
+        commit({keys[0]: "v1", keys[1]: "v1"})
+        commit({keys[0]: "Nil"})
+        if with_tail:
+            commit({keys[2]: "v2"})
+            commit({keys[1]: "Nil"})
+            commit({keys[0]: "v2", keys[2]: "Nil"})
+            commit({keys[0]: "Nil"})
+        return beh
+
+    def script(run, beh, v2):
+        store = dict(hashtable_buckets=4096, rollback=True, max_rollback_log_len=2, seed=rng.randrange(1 << 30), segment_size=0)
+        conc = dict(keys=keys, vals=sorted(consts["Vals"]), emb="top", f=1,
+                    vtable={"v1": str(BIG), "v2": str(v2), "v3": "tiny"}, seed=12345, probes=1)
+        return api.make_script(run, beh, store, conc)
+
+    probe = script(first_run + 1, beh_for(False), 100)
+    probe["decode"] = True
+    runs, hangs = api.replay([probe], pid + "flprobe")
+    head = None
+    for rec in runs.get(first_run + 1, []):
+        d = (rec.get("st") or {}).get("dec") if isinstance(rec.get("st"), dict) else None
+        if rec.get("ev") == "Commit" and d and "ln" in d:
+            ln = d["ln"]
+            nfree = len(ln["free"]) if "free" in ln else ln.get("nfree", 0)
+            nfl = len(ln["fl"]) if "fl" in ln else ln.get("nfl", 0)
+            head = nfree - 1022 * max(nfl - 1, 0) if nfl else 0
+    if head is None or head <= 0:
+        C.log("[%s] free-list sweep: probe gave no usable head length (%s); family skipped" % (pid, head))
+        return [], consts
+    C.log("[%s] free-list sweep: head of the ln free list holds %d entries after the first big release" % (pid, head))
+    out = []
+    run = first_run + 1
+    for j in range(n):
+        left = j - 2                      # entries meant to stay in the head (around 0..n-3)
+        pages = max(head - left - 3, 1)   # overflow pages of the filler value (the leaf rewrite takes a page or two)
+        run += 1
+        out.append(script(run, beh_for(True), pages * 4096 - 64))
+    return out, consts
+
+
 def run_plan(pid, tier, seed, extra_cov=None, t0=None):
     t0 = t0 or time.time()
     tier_name = tier
@@ -260,6 +314,13 @@ def run_plan(pid, tier, seed, extra_cov=None, t0=None):
     if pid == "C14":
         return run_faults(pid, tier, seed, plan, rng, t0, states, trans, mcs, violations)
     scripts, classes, consts_by_class = gen_scripts(pid, plan, seed, rng)
+    if plan.get("flsweep"):
+        extra, fconsts = freelist_sweep_scripts(pid, rng, max(sc["run"] for sc in scripts), plan["flsweep"])
+        for sc in extra:
+            sc["crash_steps"] = [i for i, s in enumerate(sc["steps"]) if s["a"] in SYNC_OPS]
+            classes[sc["run"]] = "ml2_rb1"
+        consts_by_class.setdefault("ml2_rb1", fconsts)
+        scripts += extra
     for sc in scripts:
         sc.update(crash_mode=plan["mode"], budget=plan["budget"], nested=plan["nested"], stride=plan["stride"])
         if plan.get("decode"):
@@ -320,6 +381,7 @@ def run_plan(pid, tier, seed, extra_cov=None, t0=None):
             notes.append("ordering rule %s violated (attributed to %s)" % (rule, prop))
             continue
         p = C.write_replay(pid, "rule-%s-%d" % (rule, idx), dict(kind="sync-rule", property=prop, rule=rule, record=rec,
+                                                                 script=script_by_run.get(rec.get("run")) if isinstance(rec, dict) else None,
                                                                  context=events[max(0, idx - 40): idx + 3]))
         violations.append(dict(prop=prop, replay=p, what="I/O ordering rule '%s' violated by %s" % (rule, json.dumps(rec)[:200])))
     return finish(pid, tier, seed, t0, states, trans, mcs, mutant_res, violations, known, notes,
